@@ -551,4 +551,219 @@ theorem urljoinPath_clean (bpath : Text) (rel : List Text)
   rw [joinWith_cons_ne _ _ _ hne']
   simp
 
+/-! ## the pieces of the main theorem -/
+
+/-- pointwise relation between two lists of the same length -/
+inductive All2 {α β : Type} (R : α → β → Prop) : List α → List β → Prop
+  | nil : All2 R [] []
+  | cons {a : α} {b : β} {as : List α} {bs : List β} : R a b → All2 R as bs → All2 R (a :: as) (b :: bs)
+
+/-- every path argument is `quote(·, '')` of a parameter expression that evaluates to the name -/
+def Resolves (env : Env) (a : Arg) (n : Text) : Prop := a.enc = some "" ∧ pyOrChain env a.alts = some n
+
+theorem argTexts_quoted (env : Env) : ∀ {args : List Arg} {names : List Text},
+    All2 (Resolves env) args names → argTexts env args = .ok (names.map (quote "")) := by
+  intro args names h
+  induction h with
+  | nil => rfl
+  | cons hr _ ih =>
+    rename_i a n as ns
+    simp only [argTexts, argText, hr.1, hr.2, ih, List.map_cons]
+
+def holes : List Seg → Nat
+  | [] => 0
+  | .lit _ :: segs => holes segs
+  | .hole :: segs => holes segs + 1
+
+theorem inst_some : ∀ (segs : List Seg) (vs : List Text), holes segs = vs.length →
+    ∃ qs, inst segs vs = some qs := by
+  intro segs
+  induction segs with
+  | nil => intro vs h; cases vs with
+    | nil => exact ⟨[], rfl⟩
+    | cons v vs => simp [holes] at h
+  | cons x segs ih =>
+    intro vs h
+    cases x with
+    | lit s =>
+      obtain ⟨qs, hq⟩ := ih vs (by simpa [holes] using h)
+      exact ⟨s :: qs, by simp [inst, hq]⟩
+    | hole =>
+      cases vs with
+      | nil => simp [holes] at h
+      | cons v vs =>
+        obtain ⟨qs, hq⟩ := ih vs (by simpa [holes] using h)
+        exact ⟨v :: qs, by simp [inst, hq]⟩
+
+/-- how an instantiated segment relates to the template segment at the same position -/
+def SegRel (vals : List Text) : Seg → Text → Prop
+  | .lit s, q => q = s
+  | .hole, q => q ∈ vals
+
+theorem forall2_imp {α β : Type} {R S : α → β → Prop} (h : ∀ a b, R a b → S a b) :
+    ∀ {xs : List α} {ys : List β}, All2 R xs ys → All2 S xs ys := by
+  intro xs ys hf
+  induction hf with
+  | nil => exact .nil
+  | cons hr _ ih => exact .cons (h _ _ hr) ih
+
+theorem inst_forall2 : ∀ (segs : List Seg) (vs qs : List Text), inst segs vs = some qs →
+    All2 (SegRel vs) segs qs := by
+  intro segs
+  induction segs with
+  | nil =>
+    intro vs qs h
+    simp only [inst] at h
+    split at h
+    · cases h; exact .nil
+    · cases h
+  | cons x segs ih =>
+    intro vs qs h
+    cases x with
+    | lit s =>
+      simp only [inst, Option.map_eq_some_iff] at h
+      obtain ⟨r, hr, rfl⟩ := h
+      exact .cons rfl (ih vs r hr)
+    | hole =>
+      cases vs with
+      | nil => simp [inst] at h
+      | cons v vs =>
+        simp only [inst, Option.map_eq_some_iff] at h
+        obtain ⟨r, hr, rfl⟩ := h
+        refine .cons (by simp [SegRel]) (forall2_imp ?_ (ih vs r hr))
+        intro a b hab
+        cases a with
+        | lit s => exact hab
+        | hole => exact List.mem_cons_of_mem _ hab
+
+theorem forall2_mem_right {α β : Type} {R : α → β → Prop} : ∀ {xs : List α} {ys : List β},
+    All2 R xs ys → ∀ y ∈ ys, ∃ x ∈ xs, R x y := by
+  intro xs ys hf
+  induction hf with
+  | nil => intro y hy; cases hy
+  | cons hr _ ih =>
+    intro y hy
+    rcases List.mem_cons.1 hy with rfl | hy
+    · exact ⟨_, by simp, hr⟩
+    · obtain ⟨x, hx, hxy⟩ := ih y hy
+      exact ⟨x, by simp [hx], hxy⟩
+
+theorem forall2_dropLast {α β : Type} {R : α → β → Prop} {P : α → Prop} {Q : β → Prop}
+    (hPQ : ∀ a b, R a b → P a → Q b) : ∀ {xs : List α} {ys : List β},
+    All2 R xs ys → (∀ x ∈ xs.dropLast, P x) → ∀ y ∈ ys.dropLast, Q y := by
+  intro xs ys hf
+  induction hf with
+  | nil => intro _ y hy; cases hy
+  | cons hr htl ih =>
+    rename_i a b as bs
+    intro hP y hy
+    cases htl with
+    | nil => simp [List.dropLast] at hy
+    | cons hr' htl' =>
+      rename_i a' b' as' bs'
+      simp only [List.dropLast, List.mem_cons] at hy
+      rcases hy with rfl | hy
+      · exact hPQ _ _ hr (hP a (by simp [List.dropLast]))
+      · exact ih (fun x hx => hP x (by simp [List.dropLast]; exact Or.inr (by simpa [List.dropLast] using hx)))
+          y (by simpa [List.dropLast] using hy)
+
+/-- what `urljoin` and `requests` need of a path segment to leave it alone -/
+structure GoodSeg (q : Text) : Prop where
+  chars : ∀ c ∈ q, pathChar c = true
+  esc : ∀ rest, wellEscaped (q ++ rest) = wellEscaped rest
+  noSlash : '/' ∉ q
+  noDot : isDot q = false
+
+/-- literal template segments: letters, digits, `-._~` only, and not a dot segment -/
+def litClean (s : Text) : Bool :=
+  s.all (fun c => pathChar c && c != '%' && c != '/') && !isDot s
+
+theorem goodSeg_lit {s : Text} (h : litClean s = true) : GoodSeg s := by
+  simp only [litClean, Bool.and_eq_true, List.all_eq_true, bne_iff_ne, ne_eq,
+    Bool.not_eq_true'] at h
+  refine ⟨fun c hc => (h.1 c hc).1.1, ?_, fun hm => (h.1 _ hm).2 rfl, h.2⟩
+  have hall := h.1
+  clear h
+  induction s with
+  | nil => intro rest; rfl
+  | cons c cs ih =>
+    intro rest
+    rw [List.cons_append, wellEscaped_plain _ _ (hall c (by simp)).1.2]
+    exact ih (fun x hx => hall x (by simp [hx])) rest
+
+/-- a name whose UTF-8 form is not empty, `.` or `..` -/
+def goodName (n : Text) : Prop := utf8 n ≠ [] ∧ utf8 n ≠ [46] ∧ utf8 n ≠ [46, 46]
+
+theorem pathChar_of_segChar {c : Char} (h : segChar c = true) : pathChar c = true ∧ c ≠ '/' := by
+  simpa [segChar] using h
+
+theorem goodSeg_quote {n : Text} (h : goodName n) : GoodSeg (quote "" n) ∧ quote "" n ≠ [] := by
+  have hq : quote "" n = quoteBytes [] (utf8 n) := by simp [quote, safeBytes_empty]
+  rw [hq]
+  refine ⟨⟨fun c hc => (pathChar_of_segChar (segChar_quoteBytes _ c hc)).1,
+    wellEscaped_quoteBytes _, fun hm => (pathChar_of_segChar (segChar_quoteBytes _ _ hm)).2 rfl, ?_⟩, ?_⟩
+  · simp only [isDot, Bool.or_eq_false_iff, decide_eq_false_iff_not]
+    constructor
+    · intro e; exact h.2.1 (quoteBytes_degenerate e [46] (by decide))
+    · intro e; exact h.2.2 (quoteBytes_degenerate e [46, 46] (by decide))
+  · intro e; exact h.1 (quoteBytes_degenerate e [] (by decide))
+
+theorem all_pathChar_joinWith : ∀ (qs : List Text), (∀ q ∈ qs, ∀ c ∈ q, pathChar c = true) →
+    ∀ c ∈ joinWith '/' qs, pathChar c = true := by
+  intro qs
+  induction qs with
+  | nil => intro _ c hc; cases hc
+  | cons a l ih =>
+    intro h c hc
+    cases l with
+    | nil => exact h a (by simp) c (by simpa [joinWith] using hc)
+    | cons b l =>
+      rw [joinWith_cons2] at hc
+      rcases List.mem_append.1 hc with hc | hc
+      · exact h a (by simp) c hc
+      · rcases List.mem_cons.1 hc with rfl | hc
+        · decide
+        · exact ih (fun q hq => h q (by simp [hq])) c hc
+
+theorem wellEscaped_joinWith : ∀ (qs : List Text),
+    (∀ q ∈ qs, ∀ rest, wellEscaped (q ++ rest) = wellEscaped rest) →
+    wellEscaped (joinWith '/' qs) = true := by
+  intro qs
+  induction qs with
+  | nil => intro _; rfl
+  | cons a l ih =>
+    intro h
+    cases l with
+    | nil =>
+      have := h a (by simp) []
+      simpa [joinWith, wellEscaped] using this
+    | cons b l =>
+      rw [joinWith_cons2, h a (by simp), wellEscaped_plain _ _ (by decide)]
+      exact ih (fun q hq => h q (by simp [hq]))
+
+theorem all2_length {α β : Type} {R : α → β → Prop} : ∀ {xs : List α} {ys : List β},
+    All2 R xs ys → xs.length = ys.length := by
+  intro xs ys h
+  induction h with
+  | nil => rfl
+  | cons _ _ ih => simp [ih]
+
+def segLitOk : Seg → Bool
+  | .lit s => litClean s
+  | .hole => true
+
+def segNonEmpty : Seg → Bool
+  | .lit s => !s.isEmpty
+  | .hole => true
+
+/-- literal segments are clean, and only the last one may be empty (a trailing `/`) -/
+def segsClean (segs : List Seg) : Bool :=
+  !segs.isEmpty && segs.all segLitOk && segs.dropLast.all segNonEmpty
+
+/-- the row's template parses into clean segments with as many `%s` as the row has arguments -/
+def templateOk (e : Endpoint) : Bool :=
+  match parseTemplate e.template.toList with
+  | some segs => segsClean segs && holes segs == e.args.length
+  | none => false
+
 end Amqp.Mgmt
